@@ -197,6 +197,9 @@ func ntpResponse(r *lib.Rng, req []byte, k int, mode int) []byte {
 	b[1] = 1
 	if len(req) >= 48 {
 		copy(b[24:32], req[40:48])
+		if mode == 5 { // interleaved answer: origin = the request's receive timestamp
+			copy(b[24:32], req[32:40])
+		}
 	}
 	t := time.Now().Add(time.Duration(k+1) * 4096 * time.Second)
 	rx := ntp.Time64FromTime(t)
@@ -242,7 +245,8 @@ func ntpClass(raw, reqPayload []byte) int64 {
 	if ntp.DecodePacket(&req, reqPayload) != nil {
 		return 0
 	}
-	if resp.OriginTime != req.TransmitTime {
+	interleaved := req.OriginTime != (ntp.Time64{}) && resp.OriginTime == req.ReceiveTime
+	if !interleaved && resp.OriginTime != req.TransmitTime {
 		return 2
 	}
 	if ntp.ValidateResponseMetadata(&resp) != nil {
@@ -250,6 +254,9 @@ func ntpClass(raw, reqPayload []byte) int64 {
 	}
 	now := time.Now()
 	t1 := ntp.TimeFromTime64(resp.ReceiveTime, now)
+	if interleaved { // the receive timestamp the client kept from its previous exchange (it is in the request)
+		t1 = ntp.TimeFromTime64(req.OriginTime, now)
+	}
 	t2 := ntp.TimeFromTime64(resp.TransmitTime, now)
 	if t2.Sub(t1) < 0 {
 		return 4
@@ -348,17 +355,25 @@ func (d *drv) craft(r *lib.Rng, q *parsed, it item, k int, prevKey []byte) []byt
 	return raw
 }
 
+// interState: what an interleaved-mode client may legitimately remember: the receive
+// timestamp of the response it accepted last
+type interState struct {
+	have  bool
+	accRx ntp.Time64
+}
+
 type exchangeObs struct {
 	req      []byte
 	resps    [][]byte
 	classes  []int64
 	result   string
 	late     bool
+	interReq, interReqOK bool // the request is an interleaved one; its origin field is the last accepted receive timestamp
 }
 
 // runExchange: one measurement of the client against the script.
 func (d *drv) runExchange(r *lib.Rng, c *client.SCIONClient, flt *recFilter, lg *recLog,
-	localAddr, remoteAddr udp.UDPAddr, dp snet.DataplanePath, v6 bool, script []item, sender int, probe bool, prevKey []byte) (eo exchangeObs) {
+	localAddr, remoteAddr udp.UDPAddr, dp snet.DataplanePath, v6 bool, script []item, sender int, probe bool, prevKey []byte, ist *interState) (eo exchangeObs) {
 	// the scripted next hop
 	var peer *net.UDPConn
 	var err error
@@ -400,6 +415,11 @@ func (d *drv) runExchange(r *lib.Rng, c *client.SCIONClient, flt *recFilter, lg 
 		q := parse(eo.req)
 		if !q.ok || !q.isUDP {
 			return
+		}
+		var rq ntp.Packet
+		if ist != nil && ntp.DecodePacket(&rq, q.udp.Payload) == nil && rq.OriginTime != (ntp.Time64{}) {
+			eo.interReq = true
+			eo.interReqOK = ist.have && rq.OriginTime == ist.accRx
 		}
 		for k, it := range script {
 			rr := lib.NewRng(uint64(it.flip)*7919 + uint64(it.reqFlip)*104729 + uint64(k))
@@ -477,23 +497,31 @@ func (d *drv) runExchange(r *lib.Rng, c *client.SCIONClient, flt *recFilter, lg 
 	case len(flt.calls) == 1:
 		idx := -1
 		now := time.Now()
+		tsok := false
 		for k, raw := range eo.resps {
 			pr := parseAs(raw, false)
 			var resp ntp.Packet
 			if !pr.ok || !pr.isUDP || ntp.DecodePacket(&resp, pr.udp.Payload) != nil {
 				continue
 			}
-			if ntp.TimeFromTime64(resp.ReceiveTime, now).Equal(flt.calls[0][1]) &&
-				ntp.TimeFromTime64(resp.TransmitTime, now).Equal(flt.calls[0][2]) {
-				idx = k
-				break
+			if !ntp.TimeFromTime64(resp.TransmitTime, now).Equal(flt.calls[0][2]) {
+				continue
 			}
+			// t1 is this response's receive timestamp, or - interleaved mode - that of the response
+			// this client accepted before; never a timestamp of a datagram that was not accepted
+			basic := ntp.TimeFromTime64(resp.ReceiveTime, now).Equal(flt.calls[0][1])
+			inter := ist != nil && ist.have && ntp.TimeFromTime64(ist.accRx, now).Equal(flt.calls[0][1])
+			idx, tsok = k, basic || inter
+			if ist != nil {
+				ist.have, ist.accRx = true, resp.ReceiveTime
+			}
+			break
 		}
 		a := false
 		if n := len(lg.auth); n > 0 {
 			a = lg.auth[n-1]
 		}
-		eo.result = lib.L("0", lib.I(int64(idx)), lib.Bool(a))
+		eo.result = lib.L("0", lib.I(int64(idx)), lib.Bool(a), lib.Bool(tsok))
 	case len(lg.errs) > 0:
 		cls := errClass(lg.errs[0])
 		if cls == 6 {
@@ -581,6 +609,10 @@ func (d *drv) runCliTry(kind, tags string, cc *cliCase, sender int) bool {
 	flt := &recFilter{}
 	lg := &recLog{}
 	c := &client.SCIONClient{DSCP: uint8(r.Intn(64)), InterleavedMode: false, Filter: flt}
+	// Interleaved mode stays off: with it one MeasureClockOffsetSCION call makes up to three
+	// request/response rounds, which the one-request-per-exchange script of this harness does not
+	// serve; the interleaved exchange logic is the subject of C05 (interState is kept for it).
+	var ist *interState
 	c.Log = slog.New(lg)
 	c.Auth.Enabled = cc.auth
 	c.Auth.DRKeyFetcher = scion.NewFetcher(nil)
@@ -596,7 +628,7 @@ func (d *drv) runCliTry(kind, tags string, cc *cliCase, sender int) bool {
 	var prevKey []byte
 	for xi, script := range cc.scripts {
 		start := time.Now()
-		if cc.keyed && xi > 0 && r.Bool() {
+		if cc.keyed && xi > 0 && r.Bool() && ist == nil {
 			// the next measurement of the same client goes to another server host, possibly in an AS
 			// the daemon treats differently
 			_, rh = genHost(r, r.Intn(3) == 0)
@@ -604,7 +636,7 @@ func (d *drv) runCliTry(kind, tags string, cc *cliCase, sender int) bool {
 				uint64(lib.Pick(r, 4, 4, 4, modeError, modeExpired, modeShort))<<8 | uint64(r.Intn(64)))
 			remoteAddr = udp.UDPAddr{IA: remoteIA, Host: &net.UDPAddr{IP: net.IP(rh), Port: scionPort}}
 		}
-		eo := d.runExchange(r.Fork(), c, flt, lg, localAddr, remoteAddr, dp, v6, script, sender, probe, prevKey)
+		eo := d.runExchange(r.Fork(), c, flt, lg, localAddr, remoteAddr, dp, v6, script, sender, probe, prevKey, ist)
 		if eo.late || eo.req == nil {
 			return false
 		}
@@ -626,6 +658,9 @@ func (d *drv) runCliTry(kind, tags string, cc *cliCase, sender int) bool {
 			keyok := mode != modeError && mode != modeShort && mode != modeLong
 			xcfg := lib.L(lib.U(uint64(remoteIA)), lib.B(rh), lib.Bool(keyok), lib.Bool(mode != modeExpired),
 				reqsString(reqs, start.Add(-50*time.Millisecond), time.Now()))
+			if eo.interReq && !eo.interReqOK { // reported as a result no model produces
+				eo.result = lib.L("8")
+			}
 			exs = append(exs, lib.L(viewKey(eo.req, true, xkey), lib.L(rs...), eo.result, xcfg))
 		} else {
 			exs = append(exs, lib.L(viewKey(eo.req, true, xkey), lib.L(rs...), eo.result))
